@@ -51,6 +51,10 @@ pub struct BEntry {
     /// decoders stop at their end-of-stream marker, the declared compressed size covers the padding
     #[serde(default)]
     pub trailing_pad: u32,
+    /// general-purpose bits that carry no meaning for a reader: the compression-effort hint (bits 1-2: Info-ZIP
+    /// -1/-9, 7-Zip -mx) - set in both headers
+    #[serde(default)]
+    pub gp_hint: u16,
 }
 
 impl Default for BEntry {
@@ -79,6 +83,7 @@ impl Default for BEntry {
             crc_lie: None,
             central_name: None,
             trailing_pad: 0,
+            gp_hint: 0,
         }
     }
 }
@@ -193,7 +198,7 @@ pub fn build(l: &Layout) -> Built {
             compressed.extend_from_slice(&junk(ei as u64 + 4040, e.trailing_pad as usize));
         }
         let mut recorded_method = e.method;
-        let mut flags: u16 = if e.utf8 { 0x800 } else { 0 };
+        let mut flags: u16 = (if e.utf8 { 0x800 } else { 0 }) | (e.gp_hint & 0x6);
         let mut aes_extra: Vec<u8> = vec![];
         let mut crc_rec = e.crc_lie.unwrap_or(crc);
         let mut dd = e.dd;
@@ -377,7 +382,7 @@ pub fn build(l: &Layout) -> Built {
         let e = &l.entries[ei];
         let mut info = infos[ei].clone();
         info.central_start = img.len() as u64;
-        let mut flags: u16 = if e.utf8 { 0x800 } else { 0 };
+        let mut flags: u16 = (if e.utf8 { 0x800 } else { 0 }) | (e.gp_hint & 0x6);
         let mut dd = e.dd;
         if let Some(enc) = &e.enc {
             flags |= 1;
